@@ -78,6 +78,36 @@ def native_replay(scratch, pkg, record_path, timeout=180, scripted=False, race=F
     return failed, out
 
 
+def retry_random(scratch, job, rec, path, x, known, known_hits, violations, tries=3):
+    """the solver says the two sides can differ, but its own witness happens not to separate them natively (typical
+    when library calls are summarised: the formula does not depend on the data, so the model's bits are arbitrary).
+    Try a few pseudo-random inputs of the same shape; a natively failing one is a reproduced counterexample."""
+    import random
+    for t in range(tries):
+        r2 = json.loads(json.dumps(rec))
+        rnd = random.Random(1000 + t)
+        for i in r2['inputs']:
+            if i.get('kind') in ('bits', 'bytes'):
+                i['bits'] = ''.join('1' if rnd.random() < 0.5 else '0' for _ in i['bits'])
+        p2 = path.replace('.json', '-r%d.json' % t)
+        json.dump(r2, open(p2, 'w'), indent=1)
+        failed, out = native_replay(scratch, job['pkg'], p2, scripted=rec.get('scripted', False), race=rec.get('race', False))
+        if failed and 'VERIF-ASSUME-FAILED' not in out:
+            desc = '%s %s %s %s' % (job['harness'], x['kind'], x['label'], x['pos'])
+            k = next((k for k in known if k['match'] and k['match'] in desc), None)
+            if k is not None:
+                known_hits.append((k, desc, p2))
+            else:
+                violations.append((desc + ' [witness: pseudo-random input %d after the solver model did not separate the two sides]' % t, p2, out[-1500:]))
+            try:
+                os.remove(path)
+            except OSError:
+                pass
+            return True
+        os.remove(p2)
+    return False
+
+
 def load_known():
     p = os.path.join(VERIF, 'known_findings.txt')
     known = []
@@ -233,6 +263,8 @@ def main():
                         violations.append((desc, path, out[-1500:]))
                 elif v == 'sat-candidate':
                     os.remove(path)
+                elif failed is False and any(i.get('kind') in ('bits', 'bytes') for i in rec['inputs']) and retry_random(scratch, job, rec, path, x, known, known_hits, violations):
+                    pass
                 else:
                     if not args.keep:
                         os.remove(path)
